@@ -52,6 +52,9 @@ def tor_repr(name, pylist):
     return vals
 
 
+_ECHO = [False]       # SimTor announces this controller's own SETCONFs with CONF_CHANGED (as Tor does), before the 250
+
+
 class Run(object):
     def __init__(self, options, history):
         self.viol = []
@@ -60,6 +63,7 @@ class Run(object):
         with World() as w:
             self.impl = CfgImpl(w, [(n, INITIAL[n]) for n in options])
             sim = self.impl.sim
+            sim.echo_conf_changed = _ECHO[0]
             cfg = self.impl.cfg
             if self.impl.boot != ['ok']:
                 self.viol.append(('bootstrap', 'x', 'TorConfig bootstrap failed: %r' % (self.impl.boot,)))
@@ -483,6 +487,7 @@ def tasks(tier, seed):
     d2 = 3 if tier == 'quick' else 4
     for n in names:
         out.append(((n,), d1))
+        out.append(((n,), d1, 'echo'))
     pairs = list(itertools.combinations(names, 2))
     if tier == 'quick':
         pairs = [p for p in pairs if any(TYPES[x][1] in ('comma', 'lines') for x in p)]
@@ -529,7 +534,15 @@ def run_task(param, acc):
             for cl, ft, dt in r['viol']:
                 acc.violation('%s/%s' % (cl, ft), dt, dict(script='foreign-change', name=name, op=None, pre=None), cost=5)
         return
-    options, depth = param
+    options, depth = param[:2]
+    _ECHO[0] = len(param) > 2
+    try:
+        _bfs(options, depth, acc)
+    finally:
+        _ECHO[0] = False
+
+
+def _bfs(options, depth, acc):
     seen = set()
     r0 = Run(options, ())
     handle(acc, options, (), r0)
@@ -560,10 +573,11 @@ def run_task(param, acc):
 
 def handle(acc, options, hist, r):
     oc = tuple(sorted(set(v[0] for v in r.viol))) or ('touched=%d' % len(getattr(r, 'touched', ())),)
-    acc.execution(key=(options, hist), outcome='/'.join(oc), nontrivial=len(hist) >= 2, steps=len(hist) + 1)
+    acc.execution(key=(options, hist, _ECHO[0]), outcome='/'.join(oc), nontrivial=len(hist) >= 2, steps=len(hist) + 1)
     for clause, feat, detail in r.viol:
-        acc.violation('%s/%s' % (clause, feat), detail + '   history: %r' % (hist,), dict(options=list(options), history=[list(o) for o in hist]),
-                      cost=len(hist) * 10 + len(options))
+        acc.violation('%s/%s' % (clause, feat), detail + '   history: %r%s' % (hist, ' [Tor announces this controller\'s own changes]' if _ECHO[0] else ''),
+                      dict(options=list(options), history=[list(o) for o in hist], echo=_ECHO[0]),
+                      cost=len(hist) * 10 + len(options) + (1 if _ECHO[0] else 0))
 
 
 def replay(p):
@@ -571,7 +585,11 @@ def replay(p):
         r = run_script(p['script'], p['name'], p['op'], p['pre'])
         return dict(violations=[dict(signature='%s/%s' % (c, f), what=d) for c, f, d in r['viol']], log=r['log'])
     hist = tuple(tuple(o) for o in p['history'])
-    r = Run(tuple(p['options']), hist)
+    _ECHO[0] = bool(p.get('echo'))
+    try:
+        r = Run(tuple(p['options']), hist)
+    finally:
+        _ECHO[0] = False
     return dict(violations=[dict(signature='%s/%s' % (c, f), what=d + '   history: %r' % (hist,)) for c, f, d in r.viol],
                 log=r.log + ['SETCONF log: %r' % (r.impl.sim.setconf_log,)])
 
